@@ -74,16 +74,26 @@ canary('open time exclusive', SimulatedExchange, 'is_open_at_datetime', 'self.op
 
 
 # ------------------------------------------------------------------------------------------- universes
-@harness('DynamicUniverse.get_assets', props=['C19', 'C16'], layer='L0',
+@harness('DynamicUniverse.get_assets', props=['C19', 'C16'], also=['C18'], layer='L0',
          functions=['DynamicUniverse.__init__', 'DynamicUniverse.get_assets'])
 def dynamic_universe(c):
-    """a in get_assets(t)  <=>  a has an entry date (not None) and t >= entry (inclusive)"""
+    """a in get_assets(t)  <=>  a has an entry date (not None) and t >= entry (inclusive) - whatever the universe was asked
+       before (an instant earlier OR later than t: a universe object reused by a second session rewinds)"""
     w = c.key('w')
     dates = OptTimes(c, 'asset_dates')
     u = DynamicUniverse(dates.m)
+    t0 = c.time('time_of_an_earlier_query')
     t = c.time('t')
+    if c.mode == 'conc' and getattr(c, 'rng', None) is not None and getattr(c, 'model', None) is None:
+        # concrete runs: put t exactly ON an entry instant often (the inclusive boundary), and the earlier query after it
+        entries = [v for v in dates.m.values() if v is not None]
+        if entries and c.rng.random() < 0.5:
+            t = c.rng.choice(entries).tz_convert('UTC')
+        if entries and c.rng.random() < 0.5:
+            t0 = max(entries).tz_convert('UTC') + (t - t + __import__('pandas').Timedelta(days=1))
+    u.get_assets(t0)
     res = u.get_assets(t)
-    c.ob('member-iff-dated-and-entered-inclusive', IFF(HAS(res, w), dates.entered(w, t)))
+    c.ob('member-iff-dated-and-entered-inclusive', IFF(HAS(res, w), dates.entered(w, t)), props=['C19', 'C16', 'C18'])
 
 
 canary('entry instant exclusive', DynamicUniverse, 'get_assets', 'dt >= asset_date', 'dt > asset_date')(dynamic_universe)
